@@ -296,7 +296,13 @@ def _make_action(cbid0, group, is_async, free):
 def _guard_fault(Hh, cbid):
     if Hh.guard_fault == cbid:
         Hh.log.append(("X", cbid, -1))
-        exc = Boom(cbid, -1)
+        kind = getattr(Hh, "guard_fault_kind", "boom")
+        if kind in ("stop", "value"):
+            # (e.g. a bare next() on an exhausted iterator inside a guard: an exception like any other)
+            exc = {"stop": StopIteration, "value": ValueError}[kind](f"{cbid}#-1")
+            exc.cbid, exc.occ = cbid, -1
+        else:
+            exc = Boom(cbid, -1)
         Hh.raised.append(exc)
         raise exc
 
